@@ -330,4 +330,12 @@ def r8_listed_names_are_the_ones_in_scope(ctx: Ctx) -> None:
     r6_macro_arguments_in_caller_scope(ctx)
 
 
-RULES = [r1_field_packing, r2_directive_chain, r3_order_and_multiplicity, r4_text_and_binary, r5_layout_agreement, r6_address_advance, r7_operand_literals_and_strings, r8_listed_names_are_the_ones_in_scope, rb_binding_agreement, rm_no_process_lifetime_results, ru_names_bound]
+def r9_listed_expression_values(ctx: Ctx) -> None:
+    """`its value`: operator precedence and associativity of the listed expressions (C06.R1/R2)"""
+    from .c06 import r1_precedence_order, r2_associativity
+
+    r1_precedence_order(ctx)
+    r2_associativity(ctx)
+
+
+RULES = [r1_field_packing, r2_directive_chain, r3_order_and_multiplicity, r4_text_and_binary, r5_layout_agreement, r6_address_advance, r7_operand_literals_and_strings, r8_listed_names_are_the_ones_in_scope, r9_listed_expression_values, rb_binding_agreement, rm_no_process_lifetime_results, ru_names_bound]
